@@ -189,4 +189,5 @@ def check(ctx):
     r_alias_resolution(ctx)
     c04.group_rule(ctx, 'R17.8', r'^<str::\w+ as parse::PestParse>::parse$', 'name wrappers are built from the matched text', 8)
     from . import c10
-    c10.r_lookup_ast(ctx)   # renaming-invariance of acceptance needs innermost-first lookup at type-check time
+    c10.r_lookup_ast(ctx)
+    c10.r_order_ast(ctx)   # a binder is visible in its own arm only: renaming it cannot capture a name used in the other arm   # renaming-invariance of acceptance needs innermost-first lookup at type-check time
